@@ -45,6 +45,7 @@ type docgen struct {
 	t       *rapid.T
 	toks    []tok
 	refs    []ref
+	noDiff  bool // holds a construct that encoding/xml itself mis-reads (the by-construction expectation still applies)
 	classes map[string]bool
 	nattr   int
 	raw     map[int]string // source text of token i when it differs from its data (attribute values before normalisation)
@@ -227,9 +228,18 @@ func (g *docgen) pi(decl bool) {
 			}
 		}
 	}
+	openQuote := false
+	if !decl && rapid.IntRange(0, 5).Draw(t, "piopenquote") == 0 {
+		openQuote = true
+		// a quoted pseudo-attribute value that is still open at ?>: the instruction ends there all the same
+		q := rapid.SampledFrom([]string{`"`, `'`}).Draw(t, "piq")
+		n, v := name(t), rapid.SampledFrom([]string{"", "x", "a>b", "<c d=", "/>"}).Draw(t, "piopenval")
+		g.toks = append(g.toks, tok{xml.AttributeToken, " " + n + "=" + q + v, n, q + v})
+		g.classes["pi-open-quote"] = true
+	}
 	g.refs = append(g.refs, ref{kind: "pi", name: target})
 	tail := ""
-	if !decl {
+	if !decl && !openQuote { // (whitespace behind an open quote belongs to the value)
 		tail = wsp(t, 0)
 	}
 	g.toks = append(g.toks, tok{xml.StartTagClosePIToken, "?>", "", noVal})
@@ -264,7 +274,15 @@ func (g *docgen) doctype() {
 		g.classes["doctype-subset"] = true
 		s += " ["
 		for k := rapid.IntRange(0, 3).Draw(t, "ndecl"); k > 0; k-- {
-			switch rapid.IntRange(0, 3).Draw(t, "decl") {
+			switch rapid.IntRange(0, 4).Draw(t, "decl") {
+			case 4:
+				// a processing instruction in the internal subset: opaque up to ?>, whatever quotes and brackets it holds
+				d := rapid.SampledFrom([]string{"x", "a b", "don't", "a]>b", "say \"hi", "]", ">", "[", "<!--", "<!ENTITY e 'v'>", "?", "]]>"}).Draw(t, "subsetpi")
+				s += " <?" + name(t) + " " + d + "?>"
+				g.classes["doctype-pi"] = true
+				if strings.ContainsAny(d, "'\"<>[]") {
+					g.noDiff = true
+				}
 			case 0:
 				s += " <!ENTITY " + name(t) + " " + lit("ent") + ">"
 			case 1:
@@ -379,7 +397,7 @@ func TestProp_Document(t *testing.T) {
 		// differential: a conforming reader
 		var refs []ref
 		d := stdxml.NewDecoder(strings.NewReader(src))
-		for {
+		for !g.noDiff {
 			tk, err := d.RawToken()
 			if err == io.EOF {
 				break
@@ -420,7 +438,7 @@ func TestProp_Document(t *testing.T) {
 				mine = append(mine, ref{kind: "end", name: k.text})
 			}
 		}
-		if fmt.Sprint(mine) != fmt.Sprint(refs) {
+		if !g.noDiff && fmt.Sprint(mine) != fmt.Sprint(refs) {
 			t.Fatalf("%q: the lexer reports\n  %v\nencoding/xml reports\n  %v", src, mine, refs)
 		}
 		var cls []string
